@@ -118,7 +118,7 @@ PROPS["C01"] = {
             "(counting invariant Partition, conservation law live_run), ack removes, nack dead-letters, reject returns to the "
             "category of origin, requeue replaces in one atomic effect, delivery marks exactly one holder. Tie: ~700 random "
             "histories per quick run on the real InMemoryMessageBroker in virtual time (concurrent consumers, cancelled calls), "
-            "abstract state compared with the model after every call, full messages at the end. Redis (RedisBroker.v over RedisSrv.v): enqueue / ack / nack / reject / requeue / take keep every name in exactly one place, each is ONE server transaction (reject: a read, then one), other names untouched; tie: ~150 sequential histories per quick run, the client's whole command/reply stream equal to the model's. RabbitMQ (RabbitBroker.v over AmqpSrv.v): every AMQP method changes the number of places of an id by exactly its delta (publish +1, ack -1, reject 0, nack 0 = dead-lettered), the server's own steps (TTL expiry + dead-lettering, delivery) by 0 (C01_rabbit_*); refuted by witness and recorded: nack of a message taken through the DEAD category discards it, through the DELAYED category promotes it, requeue = ack then publish; tie: ~120 histories per quick run.",
+            "abstract state compared with the model after every call, full messages at the end. Redis (RedisBroker.v over RedisSrv.v): enqueue / ack / nack / reject / requeue / take keep every name in exactly one place, each is ONE server transaction (reject: a read, then one), other names untouched; and - unbounded - from the empty server through ANY sequential history of API calls incl. takes (window reads, take transaction, burial, dead-lettering) and maintenance runs, by a caller that enqueues fresh names and disposes only of what it holds, no name is ever in two places (C01_redis_no_duplicates_from_empty, RedisRun.v); tie: ~150 sequential histories per quick run, the client's whole command/reply stream equal to the model's. RabbitMQ (RabbitBroker.v over AmqpSrv.v): every AMQP method changes the number of places of an id by exactly its delta (publish +1, ack -1, reject 0, nack 0 = dead-lettered), the server's own steps (TTL expiry + dead-lettering, delivery) by 0, and - unbounded - from the empty server through ANY history of API calls by well-behaved callers, with all deliveries, callbacks, sleeping rejects and expiries in between, no id is ever in two places (C01_rabbit_no_duplicates_from_empty over the whole client+server simulation); refuted by witness and recorded: nack of a message taken through the DEAD category discards it, through the DELAYED category promotes it, requeue = ack then publish; tie: ~120 histories per quick run.",
     "note": MEM_NOTE,
     "technique": "Coq proof by counting invariant over all histories + differential correspondence of broker histories",
     "design": "DESIGN.md §3 C01",
@@ -149,7 +149,7 @@ PROPS["C14"] = {
     "text": "Theorems (in-memory model, any number of consumers, any interleaving of their atomic polls): a delivered message was "
             "held by nobody and is afterwards held exactly once; a held message is not delivered again until it leaves the "
             "processing set; Partition holds in every reachable state; finish() of one consumer returns only its own messages. "
-            "Tie: ~600 histories per quick run with 2-5 consumers polling concurrently on one queue, holders compared after every call. Redis: for one consumer the take is one transaction that moves a present name into 'processing' (C01_redis_grab_places_*); with two consumers it is NOT exclusive - refuted by witness (C14_redis_double_delivery_refuted) and reproduced on the real client on every run as known finding redis_double_delivery_two_consumers. RabbitMQ: in a state without duplicates a delivered message was unacknowledged by nobody and gets a fresh delivery tag (C14_rabbit_*); ~100 histories with 1-3 consumers.",
+            "Tie: ~600 histories per quick run with 2-5 consumers polling concurrently on one queue, holders compared after every call. Redis: for one consumer the take is one transaction that moves a present name into 'processing' (C01_redis_grab_places_*) and in every sequential history a name is in at most one place (C14_redis_sequential_one_place); with two consumers it is NOT exclusive - refuted by witness (C14_redis_double_delivery_refuted) and reproduced on the real client on every run as known finding redis_double_delivery_two_consumers. RabbitMQ: in a state without duplicates a delivered message was unacknowledged by nobody and gets a fresh delivery tag, and that premise holds in every reachable state of every history (C14_rabbit_one_place_always) (C14_rabbit_*); ~100 histories with 1-3 consumers.",
     "note": MEM_NOTE + "All consumers share one process and event loop (the only way to share the in-memory broker). "
             "The 'executed exactly once' corollary is observed through deliveries, not through a worker.",
     "technique": "Coq proof by counting invariant + differential correspondence with concurrently polling consumers",
